@@ -1,5 +1,6 @@
 import IgVerif.Lemmas.Expr
 import IgVerif.Gen.C07Tables
+import IgVerif.Lemmas.Literal
 /-!
 # C07 — recorded constants equal the values the C++ compiler computes
 -/
@@ -106,5 +107,32 @@ example : cxxEval (.bin .bxor (.int 5) (.int 3)) = some 6 := by decide
 example : cxxEval (.cast .short (.int 70000)) = some 4464 := by decide
 example : cxxEval (.bin .div (.int 1) (.int 0)) = none ∧ evaluate (.bin .div (.int 1) (.int 0)) = .error := by decide
 example : cxxEval (.bin .add (.int 2147483647) (.int 1)) = none := by decide
+
+/-! ## integer literals (`get_number`) -/
+open IgVerif.Lit in
+/-- **Literal lexing.** A decimal, hexadecimal or binary literal — digits of the base with C++14
+digit separators anywhere between them, followed by something that neither continues the digit
+sequence nor is a separator — is recorded with the positional value of its digits, and exactly the
+literal is consumed. -/
+theorem c07_literal (d : Nat) (ds : List Nat) (bs : List Bool) (rest : List Nat) :
+    ((∀ x ∈ d :: ds, isDec x = true) → d ≠ 48 → Stop isDec rest →
+      getNumber (withSeps (d :: ds) bs ++ rest) = some (strtol 10 (d :: ds), .dec, rest)) ∧
+    (∀ x, (x = 120 ∨ x = 88) → (∀ y ∈ d :: ds, isHex y = true) → Stop isHex rest →
+      getNumber (48 :: x :: (withSeps (d :: ds) bs ++ rest)) = some (strtol 16 (d :: ds), .hex, rest)) ∧
+    (∀ x, (x = 98 ∨ x = 66) → (∀ y ∈ d :: ds, isBin y = true) → Stop isBin rest →
+      getNumber (48 :: x :: (withSeps (d :: ds) bs ++ rest)) = some (strtol 2 (d :: ds), .bin, rest)) :=
+  ⟨fun h1 h2 h3 => getNumber_dec d ds bs rest h1 h2 h3, fun x hx h1 h2 => getNumber_hex x hx d ds bs rest h1 h2,
+   fun x hx h1 h2 => getNumber_bin x hx d ds bs rest h1 h2⟩
+
+open IgVerif.Lit in
+/-- the positional value: appending a digit multiplies by the base and adds the digit -/
+theorem c07_strtol_snoc (base : Nat) (ds : List Nat) (d : Nat) : strtol base (ds ++ [d]) = strtol base ds * base + digitVal d := by
+  simp [strtol, List.foldl_append]
+
+-- 0b11 is 3 (it used to be recorded as 7), 0xFF'FF is 65535, 1'000 is 1000, 017 is 15
+example : Lit.getNumber [48, 98, 49, 49, 59] = some (3, .bin, [59]) := by decide
+example : Lit.getNumber [48, 120, 70, 70, 39, 70, 70, 44] = some (65535, .hex, [44]) := by decide
+example : Lit.getNumber [49, 39, 48, 48, 48, 32] = some (1000, .dec, [32]) := by decide
+example : Lit.getNumber [48, 49, 55, 59] = some (15, .oct, [59]) := by decide
 
 end IgVerif.C07
